@@ -59,6 +59,14 @@ def gen(tier, rng):
                     faults = [f"{c}:d0" for c in dead]
                     cases.append(sg.line(kind, 3, pre, 60000, 1, 1, faults, sg.prefill(pre) + ["x0"]))
                     cases.append(sg.line(kind, 3, pre, 60000, 1, 1, faults, sg.prefill(pre) + ["x0", "s0"]))
+    # parked connections older than the idle timeout that the maintenance worker has not reaped yet: shutdown closes them like the
+    # others (QUIT and close)
+    for kind in "sa":
+        for pre in (1, 2, 3):
+            cases.append(sg.line(kind, 3, pre, 300, 1, 1, [], sg.prefill(pre) + ["W", "x0"]))
+            cases.append(sg.line(kind, 3, pre, 300, 1, 1, [], sg.prefill(pre) + ["W", "x0", "m"]))
+            ret = ["s0"] if kind == "s" else ["r0"]
+            cases.append(sg.line(kind, 3, pre, 300, 1, 1, [], sg.prefill(pre) + ["s0"] + ret + ["W", "x0"]))
     # the moment shutdown returns: every idle connection already has its QUIT (the peer's log is read right then; tokio on a
     # current-thread runtime), and a connection being closed towards a peer that answers QUIT 2 s late delays neither a second
     # shutdown nor a send
